@@ -364,6 +364,16 @@ def check_case(case):
                     return orig(*a, **k)
                 aux.compute_consensus_rankings = counted
             with A.quiet():
+                if name in PARCONS and len(rankings) % 2:
+                    # the object has been used before, on another dataset (every other case): what it reports for THIS
+                    # dataset must not depend on that (partition, mark and consensus are judged on the second call)
+                    try:
+                        alg.compute_consensus_rankings(A.mk_dataset([[["w1"], ["w2"], ["w3"]], [["w2"], ["w3"], ["w1"]],
+                                                                      [["w3"], ["w1"], ["w2"]]]), A.mk_scheme(scheme), True)
+                    except Exception as e:
+                        if not _refusal(e):
+                            raise
+                    calls[0] = 0
                 cons = alg.compute_consensus_rankings(A.mk_dataset(rankings), A.mk_scheme(scheme), True)
         return cons, calls[0]
 
